@@ -1429,6 +1429,82 @@ func init() {
 		sort.Strings(keys)
 		return "n=" + strconv.Itoa(len(keys)) + " " + strings.Join(keys, " ")
 	}))
+	// c.rawscan <dmap> <match hex|*> <count> [rc]: raw DM.SCAN cursors, partition by partition, each sent to the partition's
+	// primary owner (with "rc": to its first backup owner, replica copy), from cursor 0 until the cursor comes back 0.
+	// Reply: "n=<keys yielded, duplicates included> <sorted hex keys...>"  or  "loop:<partition>" if a walk does not end.
+	register("c.rawscan", func(a []string) string {
+		var view *member
+		for _, m := range cl.members {
+			if m.alive {
+				view = m
+				break
+			}
+		}
+		iv := view.db.VerifInternals()
+		parts := uint64(optInt(cl.opts, "parts", 7))
+		byAddr := func(addr string) *member {
+			for _, m := range cl.members {
+				if m.addr == addr && m.alive {
+					return m
+				}
+			}
+			return nil
+		}
+		rc := len(a) >= 4 && a[3] == "rc"
+		var keys []string
+		for p := uint64(0); p < parts; p++ {
+			var target *member
+			if rc {
+				owners := iv.Backup.PartitionByID(p).Owners()
+				if len(owners) == 0 {
+					continue
+				}
+				target = byAddr(owners[len(owners)-1].String())
+			} else {
+				target = byAddr(iv.Primary.PartitionByID(p).Owner().String())
+			}
+			if target == nil {
+				return "no-owner"
+			}
+			cursor := uint64(0)
+			for round := 0; ; round++ {
+				if round > 5000 {
+					return "loop:" + strconv.FormatUint(p, 10)
+				}
+				args := []interface{}{"DM.SCAN", strconv.FormatUint(p, 10), a[0], strconv.FormatUint(cursor, 10), "COUNT", a[2]}
+				if a[1] != "*" {
+					args = append(args, "MATCH", string(unhx(a[1])))
+				}
+				if rc {
+					args = append(args, "RC")
+				}
+				ctx, cancel := opCtx()
+				res, err := cl.rawc(target).Do(ctx, args...).Slice()
+				cancel()
+				if err != nil {
+					return errClass(err)
+				}
+				if len(res) != 2 {
+					return "other:bad-scan-reply"
+				}
+				next, perr := strconv.ParseUint(fmt.Sprint(res[0]), 10, 64)
+				if perr != nil {
+					return "other:bad-cursor"
+				}
+				if ks, ok := res[1].([]interface{}); ok {
+					for _, k := range ks {
+						keys = append(keys, hx([]byte(fmt.Sprint(k))))
+					}
+				}
+				if next == 0 {
+					break
+				}
+				cursor = next
+			}
+		}
+		sort.Strings(keys)
+		return "n=" + strconv.Itoa(len(keys)) + " " + strings.Join(keys, " ")
+	})
 	// c.pipeline <cli|emb> <i> <dmap> put:<k>:<v> get:<k> getput:<k>:<v> del:<k> incr:<k>:<n> decr:<k>:<n> expire:<k>:<ms> ...
 	// every command is queued first, then one Exec, then every future is read: results joined by '|'
 	register("c.pipeline", clusterOp(func(m *member, path, name string, a []string) string {
